@@ -44,7 +44,7 @@ _RC = {"cspline_formula_few": 300, "cspline_formula_many": 300, "linear_formula_
        "grad_y_compared": 900, "grad_xq_compared": 900, "knot_queries": 2000, "outside_queries": 2000,
        "bc_not-a-knot": 60, "bc_natural": 60, "bc_clamped": 60, "bc_periodic": 60, "bc_default": 60,
        "extrap_mode_mirror": 60, "extrap_mode_periodic": 60, "extrap_mode_bound": 40, "extrap_mode_nan": 60,
-       "extrap_mode_callable": 30, "extrap_mode_const": 60, "batched_y_cases": 300}
+       "extrap_mode_callable": 30, "extrap_callable_defined_outside_only": 10, "extrap_mode_const": 60, "batched_y_cases": 300}
 REQUIRED_COUNTERS = {"quick": dict(_RC), "thorough": {k: 8 * v for k, v in _RC.items()}}
 
 BCS = ["default", "not-a-knot", "natural", "clamped", "periodic"]
@@ -224,7 +224,13 @@ def run_case(desc):
         cval = round(rng.uniform(-3, 3), 3)
         opts["extrap"] = torch.tensor([cval], dtype=dt)
     elif exmode == "callable":
-        opts["extrap"] = lambda z: ca * torch.cos(z) + cb * torch.sin(z)
+        # every second callable is only defined (finite, differentiable) OUTSIDE the sample range - all a user has to provide
+        sing = desc["seed"] % 2 == 1
+        xlo_, xhi_ = float(xs.min()), float(xs.max())
+        if sing:
+            opts["extrap"] = lambda z: ca * torch.sqrt((z - xlo_) * (z - xhi_)) + cb
+        else:
+            opts["extrap"] = lambda z: ca * torch.cos(z) + cb * torch.sin(z)
     elif exmode in ("bound", "mirror", "periodic"):
         opts["extrap"] = exmode
     if cval is not None and f32:
@@ -359,7 +365,10 @@ def run_case(desc):
             d[..., out] = np.nan
             m[..., out] = np.nan
         elif eff == "callable":
-            v[..., out] = ca * np.cos(xq[out]) + cb * np.sin(xq[out])
+            if sing:
+                v[..., out] = ca * np.sqrt((xq[out] - xlo_) * (xq[out] - xhi_)) + cb
+            else:
+                v[..., out] = ca * np.cos(xq[out]) + cb * np.sin(xq[out])
             d[..., out] = np.nan
             m[..., out] = np.nan
         if method == "linear":
@@ -570,6 +579,8 @@ def run_case(desc):
         obs.count("bc_%s" % bc)
     if allow_out:
         obs.count("extrap_mode_%s" % eff)
+        if eff == "callable" and sing:
+            obs.count("extrap_callable_defined_outside_only")
     if ybatch:
         obs.count("batched_y_cases")
     obs.count("order_%s" % order)
